@@ -475,6 +475,18 @@ def goal_facts(goals):
     return out, al, sub
 
 
+def reaches(pairs, x, y):
+    """y is reachable from x through the outlives pairs (x: .. : y)."""
+    seen, todo = {x}, [x]
+    while todo:
+        n = todo.pop()
+        for (p, q) in pairs:
+            if p == n and q not in seen:
+                seen.add(q)
+                todo.append(q)
+    return y in seen
+
+
 def eq_mod(a, b, facts, variance="Invariant", depth=0):
     """a, b deep-normalised.  Equal up to: lifetime pairs related by returned outlives goals (both
     directions if invariant, one otherwise), alias positions covered by an AliasEq goal whose type is in turn
@@ -491,7 +503,7 @@ def eq_mod(a, b, facts, variance="Invariant", depth=0):
     if ka == "L":
         if "HLError" in (ha, hb):
             return None
-        f, g = (sa, sb) in outl, (sb, sa) in outl
+        f, g = reaches(outl, sa, sb), reaches(outl, sb, sa)
         if (f and g) if variance == "Invariant" else (f or g):
             return None
         return "lifetimes %s / %s not related by the returned goals" % (sa, sb)
